@@ -7,28 +7,13 @@ verus! {
 //@include prelude/utf8_facts.rs
 //@include prelude/error.rs
 
-//@take src/crypto.rs enum:HashAlgorithm drop_derives=Debug,Clone,PartialOrd,Ord
-impl Clone for HashAlgorithm { #[verifier::external_body] fn clone(&self) -> (r: Self) ensures r == *self { unimplemented!() } }
-//@take src/crypto.rs struct:HashValue drop_derives=Clone
+//@include contracts/hash_specs.rs
 impl HashValue {
-    pub closed spec fn bytes(self) -> Seq<u8> { self.0@ }
 //@extract src/crypto.rs impl:HashValue/fn:new
 //@contract ret=r
     ensures r.bytes() == bytes@,
 //@end
 }
-// ---- trusted stubs: io::Read as a byte stream, ring digest contexts ----
-#[verifier::external_type_specification]
-#[verifier::external_body]
-pub struct ExIoError(std::io::Error);
-impl From<std::io::Error> for Error { #[verifier::external_body] fn from(e: std::io::Error) -> Error { unimplemented!() } }
-#[verifier::external_trait_specification]
-pub trait ExRead {
-    type ExternalTraitSpecificationFor: std::io::Read;
-    fn read(&mut self, buf: &mut [u8]) -> std::io::Result<usize>;
-}
-// the bytes a reader will still deliver
-pub uninterp spec fn rest<R>(r: R) -> Seq<u8>;
 // D38: `read.read(&mut buf)` on a generic reader, with std's documented contract: at most buf.len() bytes are
 // delivered; Ok(0) (for a non-empty buffer) means end of stream; the delivered bytes are the next bytes of the stream
 #[verifier::external_body]
@@ -40,21 +25,6 @@ fn reader_read<R: Read>(r: &mut R, buf: &mut Vec<u8>) -> (res: std::io::Result<u
                 && rest(*final(r)) == rest(*old(r)).skip(res->Ok_0 as int)
                 && (res->Ok_0 == 0 && old(buf)@.len() > 0 ==> rest(*old(r)).len() == 0),
 { unimplemented!() }
-pub mod digest {
-    use vstd::prelude::*;
-    pub struct Algorithm { pub id: u8 }
-    #[verifier::external_body] pub struct Context { _o: u8 }
-    pub uninterp spec fn ctx_alg(c: Context) -> u8;
-    pub uninterp spec fn ctx_data(c: Context) -> Seq<u8>;
-    #[verifier::external_body] pub struct Digest { _o: u8 }
-    pub uninterp spec fn digest_of(alg: u8, data: Seq<u8>) -> Seq<u8>;
-    impl Context {
-        #[verifier::external_body] pub fn new(a: &'static Algorithm) -> (r: Context) ensures ctx_alg(r) == a.id, ctx_data(r) == Seq::<u8>::empty() { unimplemented!() }
-    }
-}
-pub exec static SHA256: digest::Algorithm ensures SHA256.id == 1 { digest::Algorithm { id: 1 } }
-pub exec static SHA512: digest::Algorithm ensures SHA512.id == 2 { digest::Algorithm { id: 2 } }
-pub open spec fn alg_id(a: HashAlgorithm) -> u8 { match a { HashAlgorithm::Sha256 => 1, HashAlgorithm::Sha512 => 2, HashAlgorithm::Unknown(_) => 0 } }
 impl HashAlgorithm {
 //@extract src/crypto.rs impl:HashAlgorithm/fn:digest_context props=C18,C14
 //@contract ret=r
@@ -84,11 +54,7 @@ fn finish_all(hashes: &mut HashMap<&HashAlgorithm, digest::Context>) -> (r: Hash
 //@subst G2 /let mut size = 0;/ => let mut size: u64 = 0;
 //@subst G2 /let mut hashes = HashMap::new\(\);/ => let mut hashes: HashMap<&HashAlgorithm, digest::Context> = HashMap::new();
 //@contract ret=r
-    requires rest(read).len() <= u64::MAX,
-    ensures
-        r is Ok ==> r->Ok_0.0 == rest(read).len(),     // [C18]
-        r is Ok ==> forall|i: int| 0 <= i < hash_algs@.len() ==> (#[trigger] r->Ok_0.1@.contains_key(hash_algs@[i]))
-            && r->Ok_0.1@[hash_algs@[i]].bytes() == digest::digest_of(alg_id(hash_algs@[i]), rest(read)),   // [C18]
+//@include contracts/calculate_hashes.rs
 //@before /let mut size/
     let ghost stream0 = rest(read);
     proof { fact_hashalg_key_model(); }
